@@ -218,13 +218,18 @@ class ProcSched(Part):
             dict(senders=[[1, 2], [3, 4]], panic_on=[3], max_restarts=3, poison="", self_poison=2),
             dict(senders=[[1, 2, 3, 4]], panic_on=[2], max_restarts=0, poison="poison"),
             dict(senders=[[1, 2], [3, 4], [5]], panic_on=[4], max_restarts=2, poison="stop"),
+            # several stoppers racing each other and the actor's cleanup
+            dict(senders=[], panic_on=[], max_restarts=0, poison="", poisoners=["stop", "stop"], walks_factor=6, mode="pct"),
+            dict(senders=[], panic_on=[], max_restarts=0, poison="", poisoners=["poison", "stop", "poison"], walks_factor=6, mode="pct"),
+            dict(senders=[[1]], panic_on=[], max_restarts=0, poison="", poisoners=["stop", "poison"], walks_factor=4, mode="pct"),
+            dict(senders=[[1, 2], [3]], panic_on=[2], max_restarts=2, poison="poison", walks_factor=2, mode="pct"),
         ]
-        return [{"input": dict(c, walks=walks, seed=rng.randrange(1 << 30)), "class": "walks"} for c in cfgs]
+        return [{"input": dict(c, walks=walks * c.get("walks_factor", 1), seed=rng.randrange(1 << 30)), "class": "walks"} for c in cfgs]
 
     def term_coq(self, inp, t):
         recvs = C.clist(["(%s, %s)" % (C.cnat(r["inc"]), lmsg_coq(r["msg"])) for r in t["recvs"]])
         return ("{| c_recvs := %s; c_overlap := %s; c_deadlock := %s; c_stuck := %s; c_terminal := %s; c_sent := %s; "
-                "c_dead := %s; c_restarts_scripted := %s |}") % (
+                "c_dead := %s; c_restarts_scripted := %s; c_pills_done := " + C.clist([C.cbool(d) for d in t.get("pills_done", [])]) + " |}") % (
             recvs, C.cbool(t["overlap"]), C.cbool(t["deadlock"]), C.cbool(t.get("stuck", False)), C.cbool(t["terminal"]),
             C.clist([C.cnat(n) for n in t["sent"]]), C.clist([C.cnat(n) for n in t["dead"]]), C.cnat(len(inp["panic_on"])))
 
